@@ -10,6 +10,7 @@
 package chunk
 
 import (
+	"google.golang.org/protobuf/encoding/protowire"
 	"google.golang.org/protobuf/proto"
 )
 
@@ -44,7 +45,10 @@ func (c *Chunker[T]) Send(items ...T) error {
 }
 
 func (c *Chunker[T]) sendOne(item T) error {
+	// An element of a repeated message field takes its encoded size plus a
+	// tag and a length prefix.
 	itemSize := proto.Size(item)
+	itemSize += 1 + protowire.SizeVarint(uint64(itemSize))
 
 	if itemSize+c.sizeBytes >= maxMessageSize {
 		if err := c.sendResponseMsg(); err != nil {
